@@ -9,8 +9,11 @@ import (
 	"bytes"
 	"encoding/json"
 	"fmt"
+	"os"
+	"path/filepath"
 	"sort"
 	"strings"
+	"sync"
 
 	"golang.org/x/crypto/openpgp"
 	"pault.ag/go/debian/deb"
@@ -45,6 +48,14 @@ type In struct {
 	KeyringNames []string
 	Orders       bool   `json:",omitempty"` // run under c14.ForEachMapOrder and judge the SET of outcomes
 	Deb          []byte // the package, byte-exact
+
+	// path inputs: the library is told a pathname (deb.Load's second argument, or deb.LoadFile) under which ANOTHER,
+	// genuinely signed package (Good) can be found; what is verified must still be the members that were loaded.
+	//   load-under-good-abs-path   Load(Deb bytes, absolute path of a file holding Good)
+	//   load-under-good-rel-path   the same with a relative name, the working directory holding the file
+	//   loadfile-then-replaced     LoadFile(file holding Deb); the file is atomically replaced by Good before CheckDebsig
+	PathMode string `json:",omitempty"`
+	Good     []byte `json:",omitempty"`
 
 	// call-sequence inputs: the package is loaded ONCE and CheckDebsig is called len(Calls) times on that one Deb
 	// (Ask / Keyring / KeyringNames above are unused then); Keys maps a key name to its armoured public key.
@@ -102,6 +113,73 @@ func LoadAndVerify(b []byte, role string, keyring openpgp.EntityList) Outcome {
 			out.VerifyPanic = msg
 		}
 	})
+	return out
+}
+
+// verifyInto performs one CheckDebsig call and records it.
+func verifyInto(out *Outcome, d *deb.Deb, keyring openpgp.EntityList, role string) {
+	out.VerifyCalled = true
+	panicked, msg := mc.Guard(func() {
+		signer, err := d.CheckDebsig(keyring, role)
+		if err != nil {
+			out.VerifyErr = err.Error()
+			if out.VerifyErr == "" {
+				out.VerifyErr = "error"
+			}
+			return
+		}
+		out.VerifyOK = true
+		if signer == nil {
+			out.SignerNil = true
+		} else {
+			out.Signer = gen.PGPFingerprint(signer)
+		}
+	})
+	if panicked {
+		out.VerifyPanic = msg
+	}
+}
+
+var chdirMu sync.Mutex
+
+// loadAndVerifyPath executes a path input (see In.PathMode) in a scratch directory.
+func loadAndVerifyPath(in In, keyring openpgp.EntityList) Outcome {
+	var out Outcome
+	dir, err := os.MkdirTemp("", "verif-c16-path-")
+	if err != nil {
+		out.Obs.Skipped = true
+		return out
+	}
+	defer os.RemoveAll(dir)
+	good := filepath.Join(dir, "good_1.0_all.deb")
+	os.WriteFile(good, in.Good, 0o644)
+	verify := func(d *deb.Deb) { verifyInto(&out, d, keyring, in.Ask) }
+	switch in.PathMode {
+	case "load-under-good-abs-path":
+		out.Obs = c14.ObserveWith(func() *c14.Session { return c14.OpenAs(in.Deb, good) }, verify)
+	case "load-under-good-rel-path":
+		chdirMu.Lock()
+		defer chdirMu.Unlock()
+		old, _ := os.Getwd()
+		if os.Chdir(dir) != nil {
+			out.Obs.Skipped = true
+			return out
+		}
+		defer os.Chdir(old)
+		out.Obs = c14.ObserveWith(func() *c14.Session { return c14.OpenAs(in.Deb, "good_1.0_all.deb") }, verify)
+	case "loadfile-then-replaced":
+		pkg := filepath.Join(dir, "pkg_1.0_all.deb")
+		os.WriteFile(pkg, in.Deb, 0o644)
+		out.Obs = c14.ObserveWith(func() *c14.Session { return c14.OpenFile(pkg) }, func(d *deb.Deb) {
+			// atomic replacement: the loaded file descriptor keeps the old content, the NAME now leads to Good
+			tmp := pkg + ".new"
+			os.WriteFile(tmp, in.Good, 0o644)
+			os.Rename(tmp, pkg)
+			verify(d)
+		})
+	default:
+		out.Obs.Skipped = true
+	}
 	return out
 }
 
@@ -237,6 +315,9 @@ func features(in In) []string {
 	}
 	if in.Kind == "rename" {
 		f = append(f, "member-renamed")
+	}
+	if in.PathMode != "" {
+		f = append(f, "pathname-leads-to-another-signed-package")
 	}
 	if in.Kind == "swap" {
 		f = append(f, "member-replaced-original-kept-under-other-name")
@@ -392,7 +473,12 @@ func Check(scen string, in In) ([]*mc.Violation, []Outcome) {
 		if stopped {
 			return
 		}
-		o := LoadAndVerify(in.Deb, in.Ask, keyring)
+		var o Outcome
+		if in.PathMode != "" {
+			o = loadAndVerifyPath(in, keyring)
+		} else {
+			o = LoadAndVerify(in.Deb, in.Ask, keyring)
+		}
 		if o.Skipped {
 			return // an earlier execution of this process did not terminate: nothing more is executed
 		}
